@@ -911,8 +911,8 @@ Hint Resolve pk_get_task_context : presk.
 Lemma pk_evaluate_task_retry : forall r c0, preserves (RK idx t rst rnx) (evaluate_task_retry ev r c0).
 Proof. intros; unfold evaluate_task_retry; walkk. Qed.
 Hint Resolve pk_evaluate_task_retry : presk.
-Lemma pk_completion : forall t' route' evt ts' idx' new,
-  preserves (RK idx t rst rnx) (uts_completion ev t' route' evt ts' idx' new).
+Lemma pk_completion : forall t' route' evt ts' idx' new o0,
+  preserves (RK idx t rst rnx) (uts_completion ev t' route' evt ts' idx' new o0).
 Proof. intros; unfold uts_completion; walkk. Qed.
 
 Lemma witness_here : forall c, I2 c -> witness g (sequence (c_ws c)) (e_dst e) ((t, e_key e), idx).
@@ -1040,7 +1040,7 @@ Qed.
 
 (* ------------------------------------------------------------------ the task machine on the addressed record *)
 
-Lemma pj_completion : forall t route evt ts idx new, preserves RI (uts_completion ev t route evt ts idx new).
+Lemma pj_completion : forall t route evt ts idx new o0, preserves RI (uts_completion ev t route evt ts idx new o0).
 Proof. intros; unfold uts_completion; walkj. Qed.
 
 Lemma retrying_rec : forall t route idx r ns c c' res r1, uts_retrying t route idx r ns c = (c', res) ->
@@ -1073,7 +1073,7 @@ Proof. intros t c e H; split; [exact H|intros p E; discriminate]. Qed.
 Lemma pre_machine_J : forall t route evt ts idx c c' res r,
   pre_machine ev t route evt ts idx c = (c', res) -> Justified g c ->
   nth_error (sequence (c_ws c)) idx = Some r -> r_id r = t ->
-  (~ decided r \/ r_next r = [] \/ (is_retry_event evt = false /\ ~ retry_open r)) ->
+  (~ decided r \/ r_next r = [] \/ is_retry_event evt = false) ->
   PostJ t c' res.
 Proof.
   intros t route evt ts idx c c' res r H Hj Hn Hid Hm. unfold pre_machine in H.
@@ -1084,11 +1084,11 @@ Proof.
   apply bind_inv in H. destruct H as [[c1 [ns [E H]]]|[x [E ->]]];
     apply lift_res_inv in E; destruct E as [-> Ens]; [|apply PostJ_exc; exact Hj].
   assert (Hcases : (~ decided r \/ r_next r = []) \/
-                   (decided r /\ is_retry_event evt = false /\ ~ retry_open r)).
+                   (decided r /\ is_retry_event evt = false)).
   { destruct Hm as [Hm|[Hm|Hm]]; [left; left; exact Hm|left; right; exact Hm|].
     destruct (ostatus_in (r_status r) COMPLETED_STATUSES) eqn:Ed; [right; split; [exact Ed|exact Hm]|].
     left; left. unfold decided. rewrite Ed. discriminate. }
-  destruct Hcases as [Hfree|[Hd [Hne Hno]]].
+  destruct Hcases as [Hfree|[Hd Hne]].
   - (* nothing can be referring to the record *)
     assert (Hnil : r_next r = []).
     { destruct Hfree as [Hf|Hf]; [|exact Hf]. destruct Hj as [_ [_ [Ho _]]]. eapply Ho; eassumption. }
@@ -1110,14 +1110,15 @@ Proof.
     inversion H; subst c' res; clear H.
     split; [eapply pj_completion; eassumption|]. intros p Hp; inversion Hp; subst p; clear Hp.
     unfold tail_pre. cbn [po_compl po_idx po_new po_old]. intro Hc. left.
-    destruct (completion_inv _ _ _ _ _ _ _ _ _ _ E3) as [[_ [Hnone _]]|[Hcs _]]; [congruence|].
+    destruct (completion_inv _ _ _ _ _ _ _ _ _ _ _ E3) as [[_ [Hnone _]]|[Hcs _]]; [congruence|].
     assert (Hc2 : ostatus_in (r_status r2) COMPLETED_STATUSES = true).
     { rewrite S2. unfold rstatus in Hcs. destruct (r_status (stepped r ns)); [exact Hcs|discriminate]. }
-    destruct (pk_completion t idx (r_status r2) (r_next r2) Hc2 t route evt ts idx (rstatus (stepped r ns)) _ _ _ E3)
+    destruct (pk_completion t idx (r_status r2) (r_next r2) Hc2 t route evt ts idx (rstatus (stepped r ns)) _ _ _ _ E3)
       as [r3 [Hn3 [I3 [S3 X3]]]].
     { exists r2. repeat split; [exact Hn2|congruence]. }
     exists r3. split; [exact Hn3|]. split; [unfold decided; rewrite S3; exact Hc2|]. split; [exact I3|congruence].
-  - (* a completed record that may be referred to: the event leaves it alone and it is not retried *)
+  - (* a completed record that may be referred to: the event leaves it alone and -- D33: its status did not change --
+       it is not retried, whatever retries it has left *)
     assert (ns = None) as -> by (eapply completed_step_none; [exact Hd|exact Hne|symmetry; exact Ens]).
     cbn [uts_setst] in H. unfold bind at 1, ret in H. cbv beta iota in H.
     apply bind_inv in H. destruct H as [[c1' [r1 [E H]]]|[x [E ->]]];
@@ -1134,11 +1135,10 @@ Proof.
     split; [eapply pj_completion; eassumption|]. intros p Hp; inversion Hp; subst p; clear Hp.
     unfold tail_pre. cbn [po_compl po_idx po_new po_old]. intros _. right. split; [reflexivity|].
     intros cctx b Hc.
-    destruct (completion_inv _ _ _ _ _ _ _ _ _ _ E3) as [[_ [Hn0 _]]|[_ [c4 [r4 [ctx4 [b4 [[Ks _] [_ [Hr4 [Hc4 [Hb _]]]]]]]]]]].
+    destruct (completion_inv _ _ _ _ _ _ _ _ _ _ _ E3) as [[_ [Hn0 _]]|[_ [c4 [r4 [ctx4 [b4 [_ [_ [_ [Hc4 [_ [_ Hdiff]]]]]]]]]]]].
     + rewrite Hn0 in Hc; discriminate.
     + rewrite Hc4 in Hc; inversion Hc; subst ctx4 b4. destruct b; [exfalso|reflexivity].
-      destruct (Hb eq_refl) as [_ [_ Ha]]. rewrite Ks, Hn in Hr4; inversion Hr4; subst r4.
-      destruct (Ha eq_refl) as [rr [Hrr [Hi Hlt]]]. apply Hno. exists rr. repeat split; assumption.
+      apply (Hdiff eq_refl). reflexivity.
 Qed.
 
 (* ------------------------------------------------------------------ selecting the record *)
@@ -1174,7 +1174,7 @@ Definition sel_hyp (t : string) (evt : event) (s0 : option stg) (e0 : option nat
   (forall i r, e0 = Some i -> nth_error (sequence (c_ws c)) i = Some r -> r_next r = []) \/
   (forall i r, e0 = Some i -> nth_error (sequence (c_ws c)) i = Some r -> decided r -> r_next r <> [] ->
      (status_in (ev_status evt) STARTING_STATUSES = true /\ exists s, s0 = Some s /\ s_completed s = false) \/
-     (is_retry_event evt = false /\ ~ retry_open r)).
+     is_retry_event evt = false).
 
 Lemma pre_main_J : forall t route evt ts s0 e0 c c' res,
   pre_main ev t route evt ts s0 e0 c = (c', res) -> Justified g c ->
@@ -1223,10 +1223,10 @@ Proof.
   destruct (S2 _ _ E2) as [Hj3 D2]. specialize (D2 idx eq_refl).
   (* the record the machine will work on *)
   assert (Hrec : exists r, nth_error (sequence (c_ws c3)) idx = Some r /\ r_id r = t /\
-                   (~ decided r \/ r_next r = [] \/ (is_retry_event evt = false /\ ~ retry_open r))).
+                   (~ decided r \/ r_next r = [] \/ is_retry_event evt = false)).
   { assert (Hfresh : forall cc k, fresh_rec t route cc k ->
               exists r, nth_error (sequence (c_ws cc)) k = Some r /\ r_id r = t /\
-                (~ decided r \/ r_next r = [] \/ (is_retry_event evt = false /\ ~ retry_open r))).
+                (~ decided r \/ r_next r = [] \/ is_retry_event evt = false)).
     { intros cc k [r [Hn [Hst [Hi _]]]]. exists r. split; [exact Hn|]. split; [exact Hi|].
       left. unfold decided. rewrite Hst. discriminate. }
     destruct D2 as [D2|[-> [-> Ec]]]; [apply Hfresh; exact D2|].
@@ -1256,7 +1256,7 @@ Qed.
    clause -- if that record is completed and has decided transitions, the event either starts the
    task anew (it is staged again, not flagged completed) or is not the internal retry event and
    finds no retry left *)
-Definition call_ok (c : cstate) (t : string) (route : nat) (evt : event) : Prop :=
+Definition call_ok_w (c : cstate) (t : string) (route : nat) (evt : event) : Prop :=
   is_engine_command t = true \/
   (forall c1 u i r, ensure_ws ev c = (c1, u) -> ws_task_idx (c_ws c1) t route = Some i ->
      nth_error (sequence (c_ws c1)) i = Some r -> r_next r = []) \/
@@ -1265,10 +1265,10 @@ Definition call_ok (c : cstate) (t : string) (route : nat) (evt : event) : Prop 
      decided r -> r_next r <> [] ->
      (status_in (ev_status evt) STARTING_STATUSES = true /\
       exists s, get_staged_task (c_ws c) t route = Some s /\ s_completed s = false) \/
-     (is_retry_event evt = false /\ ~ retry_open r)).
+     is_retry_event evt = false).
 
 Lemma prefix_J : forall t route evt c c' res,
-  uts_prefix ev t route evt c = (c', res) -> Justified g c -> call_ok c t route evt -> PostJ t c' res.
+  uts_prefix ev t route evt c = (c', res) -> Justified g c -> call_ok_w c t route evt -> PostJ t c' res.
 Proof.
   intros t route evt c c' res H Hj Hok. unfold uts_prefix in H.
   apply (bind_I (Justified g) _ _ _ _ (PostJ t) _ _ _ H Hj); [apply pj_ensure_ws|intros; apply PostJ_exc; assumption|].
@@ -1295,7 +1295,7 @@ Proof.
 Qed.
 
 Lemma tail_J : out_tids_unique -> forall rec,
-  (forall t route evt c c' res, rec t route evt c = (c', res) -> Justified g c -> call_ok c t route evt -> Justified g c') ->
+  (forall t route evt c c' res, rec t route evt c = (c', res) -> Justified g c -> call_ok_w c t route evt -> Justified g c') ->
   forall t route p c c' res, tail_of ev rec t route p c = (c', res) -> Justified g c -> tail_pre t c p ->
   (forall cctx, po_compl p = Some (cctx, true) -> ws_task_idx (c_ws c) t route = Some (po_idx p)) ->
   Justified g c'.
@@ -1356,8 +1356,8 @@ Proof.
   - eapply (Hnr None); [reflexivity|intros x E; inversion E|exact H].
 Qed.
 
-Lemma uts_J : out_tids_unique -> forall fuel t route evt c c' res,
-  update_task_state_fuel ev fuel t route evt c = (c', res) -> Justified g c -> call_ok c t route evt ->
+Lemma uts_J_w : out_tids_unique -> forall fuel t route evt c c' res,
+  update_task_state_fuel ev fuel t route evt c = (c', res) -> Justified g c -> call_ok_w c t route evt ->
   Justified g c'.
 Proof.
   intro Hnd. induction fuel as [|fuel IH]; intros t route evt c c' res H Hj Hok.
@@ -1453,39 +1453,97 @@ Proof.
 Qed.
 
 (* ---- every API operation ---- *)
-Definition op_in_protocol (c : cstate) (op : api_op) : Prop :=
-  match op with OpEvent t route evt => call_ok c t route evt | _ => True end.
+Definition op_in_protocol_w (c : cstate) (op : api_op) : Prop :=
+  match op with OpEvent t route evt => call_ok_w c t route evt | _ => True end.
 
-Theorem api_justified : out_tids_unique -> forall op c c' res, op_in_protocol c op ->
+Theorem api_justified_w : out_tids_unique -> forall op c c' res, op_in_protocol_w c op ->
   api_exec ev op c = (c', res) -> Justified g c -> Justified g c'.
 Proof.
   intros Hnd op c c' res Hs H Hj.
   assert (G : forall (m : M unit), preserves RI m -> (bind m (fun _ => ret RUnit)) c = (c', res) -> Justified g c').
   { intros m Hm Hb. eapply (preserves_bind _ RI_trans); [exact Hm|intro; apply (preserves_ret _ RI_refl)|exact Hb|exact Hj]. }
-  destruct op; cbn [api_exec] in H; cbn [op_in_protocol] in Hs.
+  destruct op; cbn [api_exec] in H; cbn [op_in_protocol_w] in Hs.
   - eapply G; [apply pj_ensure_ws|exact H].
   - eapply G; [apply pj_request_workflow_status|exact H].
   - eapply (preserves_bind _ RI_trans); [apply pj_get_next_tasks|intro; apply (preserves_ret _ RI_refl)|exact H|exact Hj].
   - apply bind_inv in H. destruct H as [[c1 [u [E H]]]|[e0 [E _]]].
-    + inversion H; subst c1. eapply uts_J; [exact Hnd|exact E|exact Hj|exact Hs].
-    + eapply uts_J; [exact Hnd|exact E|exact Hj|exact Hs].
+    + inversion H; subst c1. eapply uts_J_w; [exact Hnd|exact E|exact Hj|exact Hs].
+    + eapply uts_J_w; [exact Hnd|exact E|exact Hj|exact Hs].
   - eapply G; [apply pj_render_workflow_output|exact H].
   - eapply G; [apply pj_request_workflow_rerun|exact H].
   - eapply G; [apply pj_persist|exact H].
 Qed.
 
+Fixpoint hist_in_protocol_w (ops : list api_op) (c : cstate) : Prop :=
+  match ops with
+  | [] => True
+  | op :: ops' => op_in_protocol_w c op /\ hist_in_protocol_w ops' (fst (api_exec ev op c))
+  end.
+
+Theorem history_justified_w : out_tids_unique -> forall ops c, hist_in_protocol_w ops c ->
+  Justified g c -> Justified g (run_ops ev ops c).
+Proof.
+  intro Hnd. induction ops as [|op ops IH]; intros c Hs Hj; cbn [run_ops fold_left]; [exact Hj|].
+  destruct Hs as [Ho Hs]. apply IH; [exact Hs|].
+  destruct (api_exec ev op c) as [c1 r] eqn:E. cbn [fst]. eapply api_justified_w; eassumption.
+Qed.
+
+(* the protocol clause as it was needed before the engine fix D33 (a completed record with a retry left was reopened
+   by a duplicate report): it asks that the record has no retry left; kept, and the theorems for it derived *)
+Definition call_ok (c : cstate) (t : string) (route : nat) (evt : event) : Prop :=
+  is_engine_command t = true \/
+  (forall c1 u i r, ensure_ws ev c = (c1, u) -> ws_task_idx (c_ws c1) t route = Some i ->
+     nth_error (sequence (c_ws c1)) i = Some r -> r_next r = []) \/
+  (c_init c = true /\
+   forall i r, ws_task_idx (c_ws c) t route = Some i -> nth_error (sequence (c_ws c)) i = Some r ->
+     decided r -> r_next r <> [] ->
+     (status_in (ev_status evt) STARTING_STATUSES = true /\
+      exists s, get_staged_task (c_ws c) t route = Some s /\ s_completed s = false) \/
+     (is_retry_event evt = false /\ ~ retry_open r)).
+Lemma call_ok_weaken : forall c t route evt, call_ok c t route evt -> call_ok_w c t route evt.
+Proof.
+  intros c t route evt [H|[H|[Hi H]]]; [left; exact H|right; left; exact H|right; right]. split; [exact Hi|].
+  intros i r Hp Hn Hd Hx. destruct (H i r Hp Hn Hd Hx) as [A|[A _]]; [left; exact A|right; exact A].
+Qed.
+Definition op_in_protocol (c : cstate) (op : api_op) : Prop :=
+  match op with OpEvent t route evt => call_ok c t route evt | _ => True end.
+Lemma op_in_protocol_weaken : forall c op, op_in_protocol c op -> op_in_protocol_w c op.
+Proof. intros c op H; destruct op; try exact H. apply call_ok_weaken; exact H. Qed.
+Theorem api_justified : out_tids_unique -> forall op c c' res, op_in_protocol c op ->
+  api_exec ev op c = (c', res) -> Justified g c -> Justified g c'.
+Proof. intros Hnd op c c' res Hs. apply (api_justified_w Hnd). apply op_in_protocol_weaken; exact Hs. Qed.
 Fixpoint hist_in_protocol (ops : list api_op) (c : cstate) : Prop :=
   match ops with
   | [] => True
   | op :: ops' => op_in_protocol c op /\ hist_in_protocol ops' (fst (api_exec ev op c))
   end.
-
+Lemma hist_in_protocol_weaken : forall ops c, hist_in_protocol ops c -> hist_in_protocol_w ops c.
+Proof.
+  induction ops as [|op ops IH]; intros c H; [exact I|]. destruct H as [H1 H2].
+  split; [apply op_in_protocol_weaken; exact H1|apply IH; exact H2].
+Qed.
 Theorem history_justified : out_tids_unique -> forall ops c, hist_in_protocol ops c ->
   Justified g c -> Justified g (run_ops ev ops c).
+Proof. intros Hnd ops c H. apply (history_justified_w Hnd). apply hist_in_protocol_weaken; exact H. Qed.
+
+(* D33: a history in which nobody injects the internal retry event is in the protocol, from any state that is
+   initialised or has no record yet *)
+Definition op_no_retry (op : api_op) : bool :=
+  match op with OpEvent _ _ e => negb (is_retry_event e) | _ => true end.
+Lemma call_ok_w_not_retry : forall c t route evt, c_init c = true -> is_retry_event evt = false -> call_ok_w c t route evt.
+Proof. intros c t route evt Hi He. right; right. split; [exact Hi|]. intros; right; exact He. Qed.
+Lemma call_ok_w_no_record : forall c t route evt, tasks (c_ws c) = [] -> call_ok_w c t route evt.
 Proof.
-  intro Hnd. induction ops as [|op ops IH]; intros c Hs Hj; cbn [run_ops fold_left]; [exact Hj|].
-  destruct Hs as [Ho Hs]. apply IH; [exact Hs|].
-  destruct (api_exec ev op c) as [c1 r] eqn:E. cbn [fst]. eapply api_justified; eassumption.
+  intros c t route evt Ht. right; left. intros c1 u i r E Hp _. exfalso.
+  unfold ws_task_idx in Hp. rewrite (ptk_ensure_ws ev _ _ _ E), Ht in Hp. discriminate.
+Qed.
+Lemma hist_no_retry_in_protocol : forall ops c, (c_init c = true \/ tasks (c_ws c) = []) ->
+  forallb op_no_retry ops = true -> hist_in_protocol_w ops c.
+Proof.
+  induction ops as [|op ops IH]; intros c Hc H; [exact I|]. simpl in H. apply andb_prop in H. destruct H as [H1 H2].
+  split; [|apply IH; [left; apply api_exec_inits|exact H2]].
+  destruct op; try exact I. cbn [op_in_protocol_w]. simpl in H1. apply negb_true_iff in H1.
+  destruct Hc as [Hc|Hc]; [apply call_ok_w_not_retry; assumption|apply call_ok_w_no_record; exact Hc].
 Qed.
 
 (* ---- the corollary about offers: whatever get_next_tasks offers is a staged entry, hence justified ---- *)
@@ -1528,8 +1586,8 @@ Proof. intros t route idx ts ctx e [[|]|] H; try reflexivity. congruence. Qed.
 (* the context the criteria are evaluated on: the inbound context of the completed record, with
    __current_task = {id, route, result of the reported event} and __state = the serialized workflow
    state of that moment (which holds the record's actual status) *)
-Theorem completion_ctx_shape : forall t route evt ts idx new c c' cx b,
-  uts_completion ev t route evt ts idx new c = (c', Val (Some (cx, b))) ->
+Theorem completion_ctx_shape : forall t route evt ts idx new old c c' cx b,
+  uts_completion ev t route evt ts idx new old c = (c', Val (Some (cx, b))) ->
   exists c1 r in_ctx result,
     nth_error (sequence (c_ws c1)) idx = Some r /\
     get_task_context (r_in r) c1 = (c1, Val in_ctx) /\
@@ -1541,7 +1599,7 @@ Theorem completion_ctx_shape : forall t route evt ts idx new c c' cx b,
     cx = merge_dicts (dset "__current_task" (current_task_json (r_id r) (r_route r) (Some result)) in_ctx)
                      (state_ctx (c_ws c1)).
 Proof.
-  intros t route evt ts idx new c c' cx b H. unfold uts_completion in H.
+  intros t route evt ts idx new old c c' cx b H. unfold uts_completion in H.
   destruct (status_in new COMPLETED_STATUSES); [|inversion H].
   apply bind_val_inv' in H. destruct H as [c1 [u [_ H]]]. cbv zeta in H.
   apply bind_val_inv' in H. destruct H as [c2 [r [E2 H]]]. apply get_rec_inv in E2; destruct E2 as [-> Hr].
@@ -1571,6 +1629,14 @@ Theorem reachable_justified : forall ev sp g inputs parent ops, out_tids_unique 
   hist_in_protocol ev ops (fresh_state sp g inputs parent) ->
   Justified g (run_ops ev ops (fresh_state sp g inputs parent)).
 Proof. intros ev sp g inputs parent ops Hnd Hs. apply history_justified; [exact Hnd|exact Hs|apply fresh_justified]. Qed.
+
+(* D33: no protocol hypothesis beyond "nobody injects the engine's internal retry event" *)
+Theorem reachable_justified_always : forall ev sp g inputs parent ops, out_tids_unique g ->
+  forallb op_no_retry ops = true -> Justified g (run_ops ev ops (fresh_state sp g inputs parent)).
+Proof.
+  intros ev sp g inputs parent ops Hnd H. apply history_justified_w; [exact Hnd| |apply fresh_justified].
+  apply hist_no_retry_in_protocol; [right; reflexivity|exact H].
+Qed.
 
 Theorem reachable_offers_justified : forall ev sp g inputs parent ops c' l, out_tids_unique g ->
   hist_in_protocol ev ops (fresh_state sp g inputs parent) ->
@@ -1672,19 +1738,21 @@ Proof.
   vm_compute in Hp; inversion Hp; subst i; vm_compute in Hn; inversion Hn; subst r; reflexivity.
 Qed.
 
-(* REFUTED without the protocol clause: the duplicate completion report of FrozenProofs (a decided
-   record with retries left is reopened and its decision rewritten) leaves t2 staged with a
-   reference to a transition that is now recorded false *)
-Theorem justified_refuted_by_duplicate_report :
-  ~ Justified (w_graph w_retry)
+(* The former refutation of dropping the protocol clause is gone with the engine fix D33 (the retry of a completed
+   task is evaluated only when the report changed its status).  Before the fix the duplicate completion report of
+   FrozenProofs reopened the decided record with retries left and its decision was rewritten, which left t2 staged
+   with a reference to a transition recorded false.  Now the same history -- outside the protocol clause (call_ok) --
+   leaves the workflow state as it was, and the invariant holds of it *)
+Theorem justified_kept_by_duplicate_report :
+  Justified (w_graph w_retry)
       (run_ops ev_w (w_ops1 ++ w_late :: w_ops3) (fresh_state w_spec (w_graph w_retry) [] [])).
 Proof.
-  intros [_ [_ [_ [Hs _]]]].
-  destruct (staged (c_ws (run_ops ev_w (w_ops1 ++ w_late :: w_ops3) (fresh_state w_spec (w_graph w_retry) [] []))))
-    as [|s l] eqn:Es; [vm_compute in Es; discriminate|].
-  specialize (Hs s (or_introl eq_refl)). vm_compute in Es. inversion Es; subst s l. clear Es.
-  destruct Hs as [_ Hw]. destruct (Hw ((("t1", 0), 0)) (or_introl eq_refl)) as [r' [Hn [_ [_ [Ht _]]]]].
-  vm_compute in Hn. inversion Hn; subst r'. vm_compute in Ht. discriminate.
+  pose proof w_protocol_history_justified as H.
+  assert (Ew : c_ws (run_ops ev_w (w_ops1 ++ w_late :: w_ops3) (fresh_state w_spec (w_graph w_retry) [] []))
+               = c_ws (run_ops ev_w w_ops1 (fresh_state w_spec (w_graph w_retry) [] []))) by (vm_compute; reflexivity).
+  assert (Eg : c_graph (run_ops ev_w (w_ops1 ++ w_late :: w_ops3) (fresh_state w_spec (w_graph w_retry) [] []))
+               = c_graph (run_ops ev_w w_ops1 (fresh_state w_spec (w_graph w_retry) [] []))) by (vm_compute; reflexivity).
+  unfold Justified in *. rewrite Ew, Eg. exact H.
 Qed.
 
 Example w_protocol_history_offers_t2 :
@@ -1726,6 +1794,19 @@ Lemma witness_unfold : forall g sq dst p,
   exists r', nth_error sq (snd p) = Some r' /\ r_id r' = fst (fst p) /\ decided r' /\
              aget trid_eqb (dst, snd (fst p)) (r_next r') = Some true /\
              exists e, In e (g_edges g) /\ e_src e = fst (fst p) /\ e_dst e = dst /\ e_key e = snd (fst p).
+Proof. intros; split; intro H; exact H. Qed.
+
+Lemma call_ok_w_unfold : forall ev c t route evt,
+  call_ok_w ev c t route evt <->
+  (is_engine_command t = true \/
+   (forall c1 u i r, ensure_ws ev c = (c1, u) -> ws_task_idx (c_ws c1) t route = Some i ->
+      nth_error (sequence (c_ws c1)) i = Some r -> r_next r = []) \/
+   (c_init c = true /\
+    forall i r, ws_task_idx (c_ws c) t route = Some i -> nth_error (sequence (c_ws c)) i = Some r ->
+      decided r -> r_next r <> [] ->
+      (status_in (ev_status evt) STARTING_STATUSES = true /\
+       exists s, get_staged_task (c_ws c) t route = Some s /\ s_completed s = false) \/
+      is_retry_event evt = false)).
 Proof. intros; split; intro H; exact H. Qed.
 
 Lemma call_ok_unfold : forall ev c t route evt,
